@@ -171,10 +171,12 @@ def _map_keys(eng, st, args, dty, callee, m):
         return VOpaque("HashMap iteration (map is not enumerable)")
     mode = m.group(2) or "iter"
     items = []
-    for (kb, kval) in mp.enum:
+    # all key values live in ONE temporary sequence so that references to different keys can be merged (same root, index differs)
+    keyroot = eng.alloc(st, VSeq([kv for (_, kv) in mp.enum], bv(len(mp.enum), 64)), "T")
+    for j, (kb, kval) in enumerate(mp.enum):
         cond = simp(z3.Select(mp.present, kb))
         slot = VRef(ref.root, ref.path + (("k", kb),), True)
-        kref = eng.alloc(st, kval, "T")
+        kref = VRef(keyroot.root, (("i", j),), True)
         if mode == "keys":
             v = kref
         elif mode in ("values", "values_mut"):
